@@ -25,6 +25,9 @@ R2Sdef_t_cylp_free == {0}
 R2Sdef_t_cyl_free2 == {0}
 R2Sdef_t_cylp_free2 == {0}
 R2Sdef_t_cylp_free3 == {0}
+R2Sdef_t_cylp_free4 == {0}
+R2Sdef_dev_cylp_closed == {0}
+R2Sdef_dev_cylp_span == {0}
 R2Sdef_t_cyl_ren == {144, 150, 170, 200, 256, 300}
 R2Sdef_t_cylp_ren == {144, 150, 170, 200, 256, 300}
 \* --- end generated ---
